@@ -11,5 +11,5 @@ cd /verif && VERIF_REPO=$WT VERIF_OUT=$OUT VERIF_WORKERS=${VERIF_WORKERS:-16} ./
 echo "RESULT patch=$(basename $(dirname $P))/$(basename $P) check=$ID tier=$TIER exit=$RC $(grep -c '^VIOLATION' $OUT.log) violation lines"
 grep -m2 -A1 '^VIOLATION' $OUT.log | cut -c1-400
 [ $RC -eq 2 ] && tail -5 $OUT.log | cut -c1-400
-git -C /repo worktree remove --force $WT; rm -rf $OUT
+git -C /repo worktree remove --force $WT; [ -n "$KEEP" ] || rm -rf $OUT
 exit $RC
